@@ -335,6 +335,9 @@ class Gen(object):
             return ['not', self._bool(d - 1)]
         if c < 0.9:
             en = rng.pick(ENUM_PICK)
+            if rng.chance(0.4):
+                # compared with the form's own constant (for a local enumeration: this very copy's)
+                return ['iseq', self._enum(en, d - 1), en, rng.pick(ENUMS[en])]
             return ['isenum', self._enum(en, d - 1, by_name=True), rng.pick(ENUMS[en])]
         foreign_local = [(fs, i) for fs, i in self._inputs_of_type(('enum', 'enum_empty'))
                          if i['enum'] == 'L1' and fs is not self.cur_form]
